@@ -116,3 +116,14 @@ func (x *Exec) EventsString() []string {
 	}
 	return l
 }
+
+// Deviations counts the deviations (preemptions and early clock ticks) of this execution's schedule.
+func (x *Exec) Deviations() int {
+	n := 0
+	for i, p := range x.Points {
+		if i < len(x.Choices) {
+			n += cost(p, x.Choices[i])
+		}
+	}
+	return n
+}
